@@ -16,6 +16,8 @@ use std::collections::BTreeSet;
 use std::time::Instant;
 
 const ALPHA: [char; 6] = ['A', 'a', ' ', ':', ',', '#'];
+/// second sweep with a TAB (the server splits on any ASCII blank)
+const ALPHA_TAB: [char; 5] = ['A', 'a', ' ', ':', '\t'];
 
 fn fv(scn: &str, f: Finding, input: Value) -> Violation {
     Violation { scenario: scn.to_string(), sig: f.sig, detail: f.detail, history: vec![], transcript: vec![input.to_string()] }
@@ -93,8 +95,27 @@ fn part_tokenize(max: u32) -> PartResult {
         r.violations.extend(v);
         wf += w;
     }
+    // second alphabet with a TAB, two characters shorter
+    let maxt = max.saturating_sub(1);
+    let nt = count_strings(ALPHA_TAB.len() as u64, maxt);
+    let res = par_ranges(nt, threads(), 4096, |a, b| {
+        let mut v = vec![];
+        for i in a..b {
+            let line = nth_string(&ALPHA_TAB, maxt, i);
+            for f in case_tokenize(&line) {
+                if v.len() < 10 {
+                    v.push(fv("fun:tokenize", f, json!({"line": line})));
+                }
+            }
+        }
+        v
+    });
+    for v in res {
+        r.violations.extend(v);
+    }
+    r.evaluations += nt;
     // hand-picked shapes outside the small alphabet
-    for l in ["PRIVMSG bob http://x.y/z", "TOPIC #c a:b", "PRIVMSG bob :a:b :c", ":src!u@h PRIVMSG #c :x", "  PING   tok  ", "privmsg Bob :Hi", "USER a 0 * :R R", "KICK #c bob ::", "AWAY :", "MODE #c +k a:b", "PRIVMSG #c :", "PING a:"] {
+    for l in ["PRIVMSG bob\t:a b c", "A\t:a a", "A a\t:a :a", "A\ta\t a", "\tA a", "PRIVMSG bob http://x.y/z", "TOPIC #c a:b", "PRIVMSG bob :a:b :c", ":src!u@h PRIVMSG #c :x", "  PING   tok  ", "privmsg Bob :Hi", "USER a 0 * :R R", "KICK #c bob ::", "AWAY :", "MODE #c +k a:b", "PRIVMSG #c :", "PING a:"] {
         for f in case_tokenize(l) {
             r.violations.push(fv("fun:tokenize", f, json!({"line": l})));
         }
